@@ -275,9 +275,14 @@ type geomDecoder struct {
 }
 
 func (gd *geomDecoder) decodePoint() (orb.Geometry, error) {
-	_, count, err := gd.cmdAndCount()
+	cmd, count, err := gd.cmdAndCount()
 	if err != nil {
 		return nil, err
+	}
+
+	if cmd != moveTo {
+		// only for moveTo/lineTo has the count been checked against the available data
+		return nil, errors.New("first command not one moveTo")
 	}
 
 	if count == 1 {
